@@ -157,6 +157,7 @@ type enc struct {
 	resultTerms []modelVar
 	finder  bool
 	unfolded map[string]bool
+	ufDecls []string
 }
 
 func newEnc(w *World, ss *SpecSet, fn *ssa.Function) *enc {
@@ -228,10 +229,11 @@ func (e *enc) assumeAt(t Term) {
 	}
 }
 
+// uf: uninterpreted function declarations go to an early section of every script (spec functions may mention them)
 func (e *enc) uf(name string, argSorts []string, ret string) string {
 	if !e.ufs[name] {
 		e.ufs[name] = true
-		e.decls = append(e.decls, fmt.Sprintf("(declare-fun %s (%s) %s)", name, strings.Join(argSorts, " "), ret))
+		e.ufDecls = append(e.ufDecls, fmt.Sprintf("(declare-fun %s (%s) %s)", name, strings.Join(argSorts, " "), ret))
 	}
 	return name
 }
@@ -317,6 +319,7 @@ func (e *enc) zero(t types.Type) Term {
 	case *types.Slice:
 		return fmt.Sprintf("(mk_%s %s 0 true)", s, e.uf("zarr_"+clean(s), nil, fmt.Sprintf("(Array Int %s)", e.so.of(u.Elem()))))
 	case *types.Map:
+		e.zvalFacts(s, u)
 		return fmt.Sprintf("(mk_%s ((as const (Array %s Bool)) false) %s true)", s, e.so.of(u.Key()), e.uf("zval_"+clean(s), nil, fmt.Sprintf("(Array %s %s)", e.so.of(u.Key()), e.so.of(u.Elem()))))
 	case *types.Pointer:
 		return "0"
@@ -447,6 +450,30 @@ func (e *enc) wfConds(t Term, ty types.Type, depth int) []Term {
 		}
 	}
 	return nil
+}
+
+// useMap: type invariant of a map value, assumed where the value is read: keys outside the domain hold the zero value
+// (every constructor preserves it: make, update, delete). With it m[k] is simply (select (val m) k).
+func (e *enc) useMap(t Term, sort string, mt *types.Map) {
+	if e.wfSeen == nil {
+		e.wfSeen = map[string]bool{}
+	}
+	k := "map|" + sort + "|" + t
+	if e.wfSeen[k] || boundVarRe.MatchString(t) {
+		return
+	}
+	e.wfSeen[k] = true
+	ks := e.so.of(mt.Key())
+	e.assume(fmt.Sprintf("(forall ((wf_k %s)) (! (=> (not (select (dom_%s %s) wf_k)) (= (select (val_%s %s) wf_k) %s)) :pattern ((select (val_%s %s) wf_k))))", ks, sort, t, sort, t, e.zero(mt.Elem()), sort, t))
+}
+
+// zvalFacts: the value array of an empty map holds the zero value everywhere
+func (e *enc) zvalFacts(sort string, mt *types.Map) {
+	e.once("zval#"+sort, func() {
+		ks := e.so.of(mt.Key())
+		zv := e.uf("zval_"+clean(sort), nil, fmt.Sprintf("(Array %s %s)", ks, e.so.of(mt.Elem())))
+		e.decls = append(e.decls, fmt.Sprintf("(assert (forall ((wf_k %s)) (! (= (select %s wf_k) %s) :pattern ((select %s wf_k)))))", ks, zv, e.zero(mt.Elem()), zv))
+	})
 }
 
 // useSlice: type invariant of a slice value, assumed where the value is used (every constructor preserves it)
